@@ -8,7 +8,7 @@ from typing import Protocol
 
 import falcon.testing as ft
 
-from drivers._data_util import judge_dedup
+from drivers._data_util import faithful_counterexample, judge_dedup
 from vf import table, world
 from vf.core import Ctx
 from vf.tlc import Raw
@@ -277,15 +277,21 @@ def run(ctx: Ctx) -> None:
     quick = ctx.quick
     full = {"Ages": Raw('{"gtP","eqP","ltP","zero","ltN","eqN","gtN"}'),
             "MacKinds": Raw('{"ok","key","origin","tamper","frame","noncanon"}'),
-            "NonceKinds": Raw('{"fresh","seen_in","seen_edge","seen_out","seen_rej"}')}
+            "NonceKinds": Raw('{"fresh","seen_in","seen_edge","seen_out","seen_rej"}'), "Dev_GateEmptyIsAbsent": False}
     if quick:
         consts = {**full, "ShKids": Raw('{"k1","unk"}'), "ShAges": Raw('{"zero","gtP","gtN"}'),
                   "ShMacs": Raw('{"ok","key"}'), "ShNonces": Raw('{"fresh","seen_in"}')}
     else:
         consts = {**full, "ShKids": Raw('{"k1","k2","unk"}'), "ShAges": Raw('{"gtP","eqP","zero","eqN","gtN"}'),
                   "ShMacs": Raw('{"ok","key","tamper","noncanon"}'), "ShNonces": Raw('{"fresh","seen_in","seen_rej"}')}
-    invs = ["Total", "Deterministic", "AcceptOnlyClean", "CleanAccepted", "FirstStepWins", "CheapFirst", "WindowTwoSided"]
+    invs = ["Total", "Deterministic", "AcceptOnlyClean", "CleanAccepted", "FirstStepWins", "CheapFirst", "WindowTwoSided",
+            "GateFollowsTable"]
     cases = table.enumerate_cases(ctx, "data", "ProofTable", constants=consts, invariants=invs)
+    # faithful variant (named deviation on): TLC itself must refute GateFollowsTable; the case it returns (hdr = "empty")
+    # is in Cases and is executed below like every other case
+    cex = faithful_counterexample(ctx, "data", "ProofTable", constants={**consts, "Dev_GateEmptyIsAbsent": True},
+                                  invariant="GateFollowsTable", name="ProofTable:faithful(Dev_GateEmptyIsAbsent)")
+    ctx.extra["faithful_model_counterexample"] = cex or "(none: GateFollowsTable held in the faithful model)"
     ctx.exhaustive = True
     ctx.rule = ("case = one combination of field-level faults x kid relation x clock relation x MAC relation x nonce "
                 "history, enumerated by TLC from ProofTable!Cases with the reason of the first failing step; "
